@@ -231,7 +231,7 @@ def run_bounded(res):
         'merge.ours.driver, ...); optionally nbdime entries pre-installed per scope}. Each x scope in {repo, --global with the repo as cwd} is one '
         'graph: from the initial world every command of %d (enable/disable x diffdriver, mergedriver, difftool[+--set-default], '
         'mergetool[+--set-default], all four via `nbdime config-git`) is executed in-process through the real main() functions against real git, '
-        'to depth %d; a state is the %s, and each (state, command) is executed and judged once, so all 14+14^2+14^3 sequences are covered as paths. '
+        'to depth %d; a state is the %s, and each (state, command) is executed and judged once, so %s. '
         'Oracles per step: crash, foreign-setting-changed/-added (any scope; --set-default may replace the default tool in its own scope), '
         'attributes-content-lost/-foreign-added/-duplicated (both attributes files + check-attr of x.csv/x.txt), not-routed-after-enable, '
         'tool-not-registered-after-enable, still-routed-after-disable; per pair: not-idempotent (enable;enable vs enable on parsed config of '
@@ -241,7 +241,10 @@ def run_bounded(res):
            'combinations (locations cycled so that every global variant meets every location), 9 prompt combinations (other dimensions '
            'seeded random) and 35 seeded random ones' % (len(W.ATTRS) ** 2),
            sorted(W.ATTRS), W.LOCS, len(W.COMMANDS), DEPTH,
-           'parsed config of each scope + bytes of all other user files (quick tier)' if res.tier == 'quick' else 'exact bytes of every user-owned file'))
+           'parsed config of each scope + bytes of all other user files (quick tier)' if res.tier == 'quick' else 'exact bytes of every user-owned file',
+           ('all sequences of length 1 and 2 are covered as paths and, at the third step, %d seeded-random commands per state plus the enable '
+            'commands that led to it (so every enable;enable pair of the first two levels is completed)' % QUICK_LAST) if res.tier == 'quick'
+           else 'all 14+14^2+14^3 sequences are covered as paths (checked by counting them)'))
     res.assumptions.append('bounded: only the stated configurations, commands and depth are explored')
     res.assumptions.append('a config command\'s effect depends only on the user-owned files (repo .git/config, global config, attributes files, '
                            'anything else under HOME / the work tree), the fixed environment and cwd -- this is what lets one execution per '
